@@ -103,11 +103,13 @@ Lemma start_of_stream (c : stream_class) (o : soptions) (s : stream) :
                 st_opts (enroll s) = st_opts s /\ o_version w = params_version (so_params o) /\ st_opts s = o.
 Proof.
   intros Hnew (Hn & Hp & Hd & Hk). unfold stream_new in Hnew.
-  destruct (negb (preset_ok (so_maxn o))) eqn:Epre; [discriminate|]. unfold bind in Hnew.
+  destruct (negb (preset_ok (so_maxn o) (so_maxp o) (so_maxd o))) eqn:Epre; [discriminate|]. unfold bind in Hnew.
   destruct (match so_flow o with Some f => Ok f | None => infer_flow c o end) as [fl|]; [|discriminate].
   destruct (negb (type_compat (physical_type c) (fl_logical fl))) eqn:Ec; [discriminate|].
   inversion Hnew; subst s; clear Hnew. cbn in Hk.
-  apply negb_false_iff in Epre, Ec. unfold preset_ok, MIN_NAME_LOOKUP_SIZE in Epre. apply negb_true_iff, N.ltb_ge in Epre.
+  apply negb_false_iff in Epre, Ec. unfold preset_ok, MIN_NAME_LOOKUP_SIZE in Epre.
+  apply andb_prop in Epre. destruct Epre as [Epre _]. apply andb_prop in Epre. destruct Epre as [Epre _]. apply andb_prop in Epre. destruct Epre as [Epre _].
+  apply negb_true_iff, N.ltb_ge in Epre.
   eexists. eexists. split; [reflexivity|]. unfold options_row; cbn. unfold start; cbn.
   assert (Hphys : (1 <=? physical_type c) && (physical_type c <=? 3) = true) by (destruct c; reflexivity).
   rewrite Hphys. cbn [negb].
